@@ -34,20 +34,22 @@ out = ['| id | breaks | confirmed | ./check when the change was written | ./chec
 for r in rows:
     out.append('| %s | %s | %s | %s | %s | %s |' % r)
 conf = [r for r in rows if r[2] == 'yes']
-r1 = [r for r in conf if not r[0].endswith('-r2') and not r[0].endswith('-r3')]
+r1 = [r for r in conf if not r[0].endswith(('-r2', '-r3', '-r4'))]
 r2 = [r for r in conf if r[0].endswith('-r2')]
 r3 = [r for r in conf if r[0].endswith('-r3')]
+r4 = [r for r in conf if r[0].endswith('-r4')]
 out.append('')
 for name, rs in (('round 1 (plausible maintainer mistakes)', r1), ('round 2 (deliberately subtle, written knowing that round 1 was caught)', r2),
-                 ('round 3 (history-, state- and API-usage-dependent, written knowing the classes of rounds 1 and 2; first evaluated with the coverage-guided search stage)', r3)):
+                 ('round 3 (history-, state- and API-usage-dependent, written knowing the classes of rounds 1 and 2; first evaluated with the coverage-guided search stage)', r3),
+                 ('round 4 (session 4: narrow triggers – cooperating sites, reuse after errors, entry points that must agree, new state fields; first evaluated with the machinery as it stood before the shape tie)', r4)):
     if rs:
         out.append('%s: %d confirmed changes; %d reported as VIOLATION at first evaluation (%d of them with a failing input); %d reported now (%d with a failing input).' % (
             name, len(rs), sum(r[3].split(' (generators only')[0].count('VIOLATION') > 0 for r in rs), sum('VIOLATION' in r[3].split(' (generators only')[0] and 'no-failing' not in r[3].split(' (generators only')[0] for r in rs),
             sum('VIOLATION' in r[4] for r in rs), sum('VIOLATION' in r[4] and 'no-failing' not in r[4] for r in rs)))
 if harmless:
     out.append('')
-    out.append('Negative controls – behaviour-preserving refactorings written by an independent sub-agent (rewritten option-parsing loop, option-header helper, `to_be_bytes`-based uint encoder, registry loops, shared scanner for both link parsers, guarded-write helpers, restructured Block1 handling, mask-constant header setters / reordered match arms): ' +
-               '; '.join('%s: %s' % (h['id'], ', '.join('%s %s' % kv for kv in sorted(h['check_results'].items()))) for h in harmless) + '. No check raised an alarm.')
+    out.append('Negative controls – behaviour-preserving refactorings written by an independent sub-agent (rewritten option-parsing loop, option-header helper, `to_be_bytes`-based uint encoder, registry loops, shared scanner for both link parsers, guarded-write helpers, restructured Block1 handling, mask-constant header setters / reordered match arms; session 4: serialiser rebuilt around an iterator and a shared `append_parts`, block handler flattened into early returns with `leading_zeros` arithmetic, header setters with named masks and a lookup table / observe registry with let-else and `retain` passes, decoder with a slice cursor and shared scanners in the link-format parsers): ' +
+               '; '.join('%s: %s' % (h['id'], ', '.join('%s %s' % kv for kv in sorted(h['check_results'].items()))) for h in harmless) + '. No check raised an alarm' + ('.' if all(v == 'OK' for h in harmless for v in h['check_results'].values()) else ' EXCEPT where shown.') + ' (harmless-11 made every check that depends on the translator report `no-failing-input-found` when first evaluated: `set_type`/`get_type` rewritten as a cast and a lookup array were no longer readable; see the translator fallback in §2.2.)')
 p = os.path.join(V, 'DESIGN.md')
 s = open(p).read()
 s = re.sub(r'<!-- SEEDED-TABLE-BEGIN -->.*<!-- SEEDED-TABLE-END -->', '<!-- SEEDED-TABLE-BEGIN -->\n' + '\n'.join(out) + '\n<!-- SEEDED-TABLE-END -->', s, flags=re.S)
